@@ -146,131 +146,149 @@ func checkGraphView(net *network.Network, c *phenoCase, st *graphStats) []string
 			bad("Nodes() iterates %v, expected the nodes %v", got, c.Q.Order)
 		}
 	}
-	for u := 0; u <= c.Dom; u++ {
-		want, isThere := present[u]
-		// Node(id)
-		st.queries++
-		n := net.Node(int64(u))
-		if isThere {
-			if isNil(n) {
-				bad("Node(%d) = nil, but the network has this node", u)
-			} else if int(n.ID()) != u {
-				bad("Node(%d) returned the node with id %d", u, n.ID())
-			} else if nn, ok := n.(*network.NNode); ok {
-				if want.Role == "C" {
-					if a, _ := sy.modAct(nn.ActivationType); a != want.Act {
-						bad("Node(%d): control node with activation type %d, expected symbol %d", u, nn.ActivationType, want.Act)
-					}
-					if !net.IsControlNode(u) {
-						bad("IsControlNode(%d) = false for the control node of an enabled module", u)
-					}
-				} else {
-					a, _ := sy.nodeAct(nn.ActivationType)
-					if typeRole(nn.NeuronType) != want.Role || a != want.Act {
-						bad("Node(%d) = {role %s, act %d}, expected {role %s, act %d}", u, typeRole(nn.NeuronType), a, want.Role, want.Act)
-					}
-					if net.IsControlNode(u) {
-						bad("IsControlNode(%d) = true for an ordinary node", u)
-					}
-				}
+	// The queries are pure: every one is asked twice on the same network instance, the second time in another order
+	// (ids descending, the undirected question about a pair BEFORE the directed ones), and must be answered alike.
+	for pass := 0; pass < 2; pass++ {
+		for ui := 0; ui <= c.Dom; ui++ {
+			u := ui
+			if pass == 1 {
+				u = c.Dom - ui
 			}
-		} else {
-			if !isNil(n) {
-				bad("Node(%d) returned node %d, but the network has no node %d", u, n.ID(), u)
-			} else if n != nil {
-				st.typed(fmt.Sprintf("Node(%d) of an absent node is a non-nil graph.Node holding a nil *NNode", u))
-			}
-		}
-		// From(id), To(id)
-		for dir, wantIds := range map[string][]int{"From": c.Q.From[u], "To": c.Q.To[u]} {
+			want, isThere := present[u]
+			// Node(id)
 			st.queries++
-			var it graph.Nodes
-			if dir == "From" {
-				it = net.From(int64(u))
-			} else {
-				it = net.To(int64(u))
-			}
-			if it == nil {
-				bad("%s(%d) returned nil (must not)", dir, u)
-				continue
-			}
-			got := idsOf(it)
-			if !sameSet(got, wantIds) {
-				bad("%s(%d) = %v, expected %v", dir, u, got, uniq(append([]int{}, wantIds...)))
-			} else if hasDup(got) && !hasDup(wantIds) {
-				bad("%s(%d) = %v lists a node twice although no parallel links exist", dir, u, got)
-			}
-		}
-		for v := 0; v <= c.Dom; v++ {
-			ea := edges[[2]int{u, v}]
-			okW := func(w float64, rec *bool) bool {
-				for _, a := range ea.Any {
-					if symWeight(a.W) == w && (rec == nil || *rec == a.Rec) {
-						return true
-					}
-				}
-				return false
-			}
-			// Edge, WeightedEdge
-			st.queries += 5
-			e := net.Edge(int64(u), int64(v))
-			we := net.WeightedEdge(int64(u), int64(v))
-			w, ok := net.Weight(int64(u), int64(v))
-			hft := net.HasEdgeFromTo(int64(u), int64(v))
-			hb := net.HasEdgeBetween(int64(u), int64(v))
-			if ea == nil {
-				if !isNil(e) {
-					bad("Edge(%d,%d) returned an edge %d->%d, but the network has no link %d->%d", u, v, e.From().ID(), e.To().ID(), u, v)
-				} else if e != nil {
-					st.typed(fmt.Sprintf("Edge(%d,%d) of an absent edge is a non-nil graph.Edge holding a nil *Link", u, v))
-				}
-				if !isNil(we) {
-					bad("WeightedEdge(%d,%d) returned an edge of weight %v, but the network has no link %d->%d", u, v, we.Weight(), u, v)
-				} else if we != nil {
-					st.typed(fmt.Sprintf("WeightedEdge(%d,%d) of an absent edge is a non-nil graph.WeightedEdge holding a nil *Link", u, v))
-				}
-				if ok {
-					if _, there := present[u]; u == v && there {
-						// gonum's Weighted contract lets Weight(x,x) answer true for an existing node without a self-loop;
-						// C11 does not decide between the two conventions: counted, not alarmed
-						st.selfWeightTrue++
+			n := net.Node(int64(u))
+			if isThere {
+				if isNil(n) {
+					bad("Node(%d) = nil, but the network has this node", u)
+				} else if int(n.ID()) != u {
+					bad("Node(%d) returned the node with id %d", u, n.ID())
+				} else if nn, ok := n.(*network.NNode); ok {
+					if want.Role == "C" {
+						if a, _ := sy.modAct(nn.ActivationType); a != want.Act {
+							bad("Node(%d): control node with activation type %d, expected symbol %d", u, nn.ActivationType, want.Act)
+						}
+						if !net.IsControlNode(u) {
+							bad("IsControlNode(%d) = false for the control node of an enabled module", u)
+						}
 					} else {
-						bad("Weight(%d,%d) = (%v, true), but the network has no link %d->%d", u, v, w, u, v)
-					}
-				}
-				if hft {
-					bad("HasEdgeFromTo(%d,%d) = true, but the network has no link %d->%d", u, v, u, v)
-				}
-			} else {
-				if isNil(e) {
-					bad("Edge(%d,%d) = nil, but the network has a link %d->%d", u, v, u, v)
-				} else {
-					if int(e.From().ID()) != u || int(e.To().ID()) != v {
-						bad("Edge(%d,%d) returned the edge %d->%d", u, v, e.From().ID(), e.To().ID())
-					}
-					if l, isLink := e.(*network.Link); isLink {
-						if !okW(l.ConnectionWeight, &l.IsRecurrent) {
-							bad("Edge(%d,%d) is a link {w %v, rec %v}; the links %d->%d of the network are %v (w in quarters)", u, v,
-								l.ConnectionWeight, l.IsRecurrent, u, v, ea.Any)
+						a, _ := sy.nodeAct(nn.ActivationType)
+						if typeRole(nn.NeuronType) != want.Role || a != want.Act {
+							bad("Node(%d) = {role %s, act %d}, expected {role %s, act %d}", u, typeRole(nn.NeuronType), a, want.Role, want.Act)
+						}
+						if net.IsControlNode(u) {
+							bad("IsControlNode(%d) = true for an ordinary node", u)
 						}
 					}
 				}
-				if isNil(we) {
-					bad("WeightedEdge(%d,%d) = nil, but the network has a link %d->%d", u, v, u, v)
-				} else if !okW(we.Weight(), nil) {
-					bad("WeightedEdge(%d,%d).Weight() = %v; the links %d->%d of the network are %v (w in quarters)", u, v, we.Weight(), u, v, ea.Any)
-				}
-				if !ok {
-					bad("Weight(%d,%d) reports no edge, but the network has a link %d->%d", u, v, u, v)
-				} else if !okW(w, nil) {
-					bad("Weight(%d,%d) = %v; the links %d->%d of the network are %v (w in quarters)", u, v, w, u, v, ea.Any)
-				}
-				if !hft {
-					bad("HasEdgeFromTo(%d,%d) = false, but the network has a link %d->%d", u, v, u, v)
+			} else {
+				if !isNil(n) {
+					bad("Node(%d) returned node %d, but the network has no node %d", u, n.ID(), u)
+				} else if n != nil {
+					st.typed(fmt.Sprintf("Node(%d) of an absent node is a non-nil graph.Node holding a nil *NNode", u))
 				}
 			}
-			if hb != between[[2]int{u, v}] {
-				bad("HasEdgeBetween(%d,%d) = %v, expected %v", u, v, hb, !hb)
+			// From(id), To(id)
+			for dir, wantIds := range map[string][]int{"From": c.Q.From[u], "To": c.Q.To[u]} {
+				st.queries++
+				var it graph.Nodes
+				if dir == "From" {
+					it = net.From(int64(u))
+				} else {
+					it = net.To(int64(u))
+				}
+				if it == nil {
+					bad("%s(%d) returned nil (must not)", dir, u)
+					continue
+				}
+				got := idsOf(it)
+				if !sameSet(got, wantIds) {
+					bad("%s(%d) = %v, expected %v", dir, u, got, uniq(append([]int{}, wantIds...)))
+				} else if hasDup(got) && !hasDup(wantIds) {
+					bad("%s(%d) = %v lists a node twice although no parallel links exist", dir, u, got)
+				}
+			}
+			for vi := 0; vi <= c.Dom; vi++ {
+				v := vi
+				if pass == 1 {
+					v = c.Dom - vi
+				}
+				ea := edges[[2]int{u, v}]
+				okW := func(w float64, rec *bool) bool {
+					for _, a := range ea.Any {
+						if symWeight(a.W) == w && (rec == nil || *rec == a.Rec) {
+							return true
+						}
+					}
+					return false
+				}
+				// Edge, WeightedEdge
+				st.queries += 5
+				hb := false
+				if pass == 1 {
+					hb = net.HasEdgeBetween(int64(u), int64(v))
+				}
+				e := net.Edge(int64(u), int64(v))
+				we := net.WeightedEdge(int64(u), int64(v))
+				w, ok := net.Weight(int64(u), int64(v))
+				hft := net.HasEdgeFromTo(int64(u), int64(v))
+				if pass == 0 {
+					hb = net.HasEdgeBetween(int64(u), int64(v))
+				}
+				if ea == nil {
+					if !isNil(e) {
+						bad("Edge(%d,%d) returned an edge %d->%d, but the network has no link %d->%d", u, v, e.From().ID(), e.To().ID(), u, v)
+					} else if e != nil {
+						st.typed(fmt.Sprintf("Edge(%d,%d) of an absent edge is a non-nil graph.Edge holding a nil *Link", u, v))
+					}
+					if !isNil(we) {
+						bad("WeightedEdge(%d,%d) returned an edge of weight %v, but the network has no link %d->%d", u, v, we.Weight(), u, v)
+					} else if we != nil {
+						st.typed(fmt.Sprintf("WeightedEdge(%d,%d) of an absent edge is a non-nil graph.WeightedEdge holding a nil *Link", u, v))
+					}
+					if ok {
+						if _, there := present[u]; u == v && there {
+							// gonum's Weighted contract lets Weight(x,x) answer true for an existing node without a self-loop;
+							// C11 does not decide between the two conventions: counted, not alarmed
+							st.selfWeightTrue++
+						} else {
+							bad("Weight(%d,%d) = (%v, true), but the network has no link %d->%d", u, v, w, u, v)
+						}
+					}
+					if hft {
+						bad("HasEdgeFromTo(%d,%d) = true, but the network has no link %d->%d", u, v, u, v)
+					}
+				} else {
+					if isNil(e) {
+						bad("Edge(%d,%d) = nil, but the network has a link %d->%d", u, v, u, v)
+					} else {
+						if int(e.From().ID()) != u || int(e.To().ID()) != v {
+							bad("Edge(%d,%d) returned the edge %d->%d", u, v, e.From().ID(), e.To().ID())
+						}
+						if l, isLink := e.(*network.Link); isLink {
+							if !okW(l.ConnectionWeight, &l.IsRecurrent) {
+								bad("Edge(%d,%d) is a link {w %v, rec %v}; the links %d->%d of the network are %v (w in quarters)", u, v,
+									l.ConnectionWeight, l.IsRecurrent, u, v, ea.Any)
+							}
+						}
+					}
+					if isNil(we) {
+						bad("WeightedEdge(%d,%d) = nil, but the network has a link %d->%d", u, v, u, v)
+					} else if !okW(we.Weight(), nil) {
+						bad("WeightedEdge(%d,%d).Weight() = %v; the links %d->%d of the network are %v (w in quarters)", u, v, we.Weight(), u, v, ea.Any)
+					}
+					if !ok {
+						bad("Weight(%d,%d) reports no edge, but the network has a link %d->%d", u, v, u, v)
+					} else if !okW(w, nil) {
+						bad("Weight(%d,%d) = %v; the links %d->%d of the network are %v (w in quarters)", u, v, w, u, v, ea.Any)
+					}
+					if !hft {
+						bad("HasEdgeFromTo(%d,%d) = false, but the network has a link %d->%d", u, v, u, v)
+					}
+				}
+				if hb != between[[2]int{u, v}] {
+					bad("HasEdgeBetween(%d,%d) = %v, expected %v", u, v, hb, !hb)
+				}
 			}
 		}
 	}
